@@ -87,6 +87,10 @@ m("c10-new-unwrap", "C10", "violation", "K2",
 m("c18-drop-shift", "C18", "violation", "HBox.shift_amount/parse",
   [("crates/boxworks/src/lang/convert.rs", "            shift_amount: self.shift_amount.value,\n            glue_ratio: self.glue_ratio.value,", "            shift_amount: Default::default(),\n            glue_ratio: self.glue_ratio.value,")])
 # ---------------- behaviour preserving
+m("c06-hex-letter-guard", "C06", "violation", "parse_constant",
+  [("crates/texlang/src/parse/integer.rs", "                if RADIX == 16 && d < 6 {", "                if RADIX == 16 && d <= 6 {")])
+m("c06-from-integer-guard", "C06", "violation", "from_integer",
+  [("crates/common/src/lib.rs", "        if i >= (1 << 14) || i <= -(1 << 14) {", "        if i > (1 << 14) || i <= -(1 << 14) {")])
 m("bp-rename-depth", "C07", "silent", "",
   [("crates/texlang-stdlib/src/conditional.rs", "fn false_case<S: HasComponent<Component>>(\n    original_token: token::Token,\n    input: &mut vm::ExpansionInput<S>,\n) -> txl::Result<()> {\n    // A 64-bit counter: the depth is bounded only by the number of tokens in the input.\n    let mut depth = 0_i64;",
     "fn false_case<S: HasComponent<Component>>(\n    original_token: token::Token,\n    input: &mut vm::ExpansionInput<S>,\n) -> txl::Result<()> {\n    let mut depth: i64 = 0;\n    let _unused_marker = ();")])
